@@ -160,6 +160,17 @@ class PathEval(T.Evaluator):
         self.trace.append(kw)
         return kw
 
+    def add_guard(self, cv, pol, node):
+        """Record `cv == pol` as holding on the continuing path; `!(a || b)` and `a && b` are split into their operands."""
+        k = kind_of(cv)
+        if k == "not":
+            return self.add_guard(cv[3][0], not pol, node)
+        if (k == "or" and not pol) or (k == "and" and pol):
+            for x in cv[3]:
+                self.add_guard(x, pol, node)
+            return
+        self.event(kind="guard", canon=canon_guard(cv, pol), value=cv, pol=pol, node=node)
+
     def calls_named(self, *names):
         return [e for e in self.trace if e["kind"] == "call" and e["name"] in names]
 
@@ -376,10 +387,10 @@ class PathEval(T.Evaluator):
         if cv == ("b", False):
             return self.ev(n["else"], env) if "else" in n else ("t", [])
         if H.diverges(n["then"]) and H.is_err_exit(n["then"]):
-            self.event(kind="guard", canon=canon_guard(cv, False), value=cv, pol=False, node=n)
+            self.add_guard(cv, False, n)
             return self.ev(n["else"], env) if "else" in n else ("t", [])
         if "else" in n and H.diverges(n["else"]) and H.is_err_exit(n["else"]):
-            self.event(kind="guard", canon=canon_guard(cv, True), value=cv, pol=True, node=n)
+            self.add_guard(cv, True, n)
             return self.ev(n["then"], env)
         if "else" not in n and H.diverges(n["then"]):
             # `if c { continue | break | return <non-error> }`: what follows runs only when !c — recorded as a `skip` event
@@ -408,6 +419,20 @@ class PathEval(T.Evaluator):
                 if g == ("b", False):
                     continue
                 if g != ("b", True):
+                    # `P if g => value, P => bail!()`  ==  `P => { if !g { bail!() } value }` (and the mirrored form)
+                    nxt = None
+                    for b2 in arms[ai + 1:]:
+                        r2 = T.match_pat(b2["pat"], sv, {})
+                        if r2 is False:
+                            continue
+                        nxt = b2 if (r2 is True and "guard" not in b2) else None
+                        break
+                    if nxt is not None and H.diverges(nxt["body"]) and H.is_err_exit(nxt["body"]):
+                        self.add_guard(g, True, n)
+                        return self.ev(a["body"], e2)
+                    if nxt is not None and H.diverges(a["body"]) and H.is_err_exit(a["body"]):
+                        self.add_guard(g, False, n)
+                        continue
                     then = self._branch(a["body"], e2)
                     rest_node = {"k": "match", "scrut": n["scrut"], "arms": arms[ai + 1:], "src": n.get("src")}
                     self.scrut_override[id(rest_node)] = sv
